@@ -15,7 +15,7 @@ fn walk_mix<M: NodeMon>(ctx: &Ctx, rep: &mut Report, mon: &mut M, quick: u64, th
     ctx.cases(rep, "play", n, |gid, rng, rep| {
         let start = mixed_start(rng, gid, &corpus);
         let maxp = if is_miri { rng.range(2, 5) } else { rng.range(plies.0, plies.1) };
-        let cfg = WalkCfg { max_plies: maxp, null_per_mille: null_pm, stop_on_divergence: true, follow_library: fl };
+        let cfg = WalkCfg { max_plies: maxp, null_per_mille: null_pm, stop_on_divergence: true, follow_library: fl, echo_per_mille: 50 };
         let nodes = playout(&start, &cfg, rng, mon, rep);
         rep.add("ev_nodes", nodes as u64);
         // directed recipes: additionally every move of the motif position (after the prelude) is made once,
@@ -72,7 +72,7 @@ fn walk_mix<M: NodeMon>(ctx: &Ctx, rep: &mut Report, mon: &mut M, quick: u64, th
                 let m = RMove::new((b[0] - b'a') + 8 * (b[1] - b'1'), (b[2] - b'a') + 8 * (b[3] - b'1'), promo);
                 assert!(pos.valid() && pos.is_legal(m), "harness: kinds-tour entry {} {} is not valid / legal", fen, mv);
                 let st = Start { pos, prelude: vec![m], tag: "kinds_tour" };
-                let cfg = WalkCfg { max_plies: 1, null_per_mille: 0, stop_on_divergence: true, follow_library: fl };
+                let cfg = WalkCfg { max_plies: 1, null_per_mille: 0, stop_on_divergence: true, follow_library: fl, echo_per_mille: 50 };
                 let nodes = playout(&st, &cfg, rng, mon, rep);
                 rep.add("ev_nodes", nodes as u64);
                 rep.count("ev_kinds_tour_steps");
@@ -120,7 +120,7 @@ fn walk_mix<M: NodeMon>(ctx: &Ctx, rep: &mut Report, mon: &mut M, quick: u64, th
                 0 => synth::scenario_retry(rng, 9).unwrap_or_else(|| Start::plain(synth::synth(rng, Density::Crowded), "synth_dense")),
                 _ => Start::plain(synth::synth(rng, Density::Crowded), "synth_dense"),
             };
-            let cfg = WalkCfg { max_plies: 6, null_per_mille: null_pm, stop_on_divergence: true, follow_library: fl };
+            let cfg = WalkCfg { max_plies: 6, null_per_mille: null_pm, stop_on_divergence: true, follow_library: fl, echo_per_mille: 50 };
             let nodes = playout(&start, &cfg, rng, mon, rep);
             rep.add("ev_nodes", nodes as u64);
         });
@@ -238,7 +238,7 @@ pub fn run_c06(ctx: &Ctx, rep: &mut Report) {
         }
         for (fen, m) in [("rnbqkbnr/ppp1pppp/8/8/3p4/8/PPPPPPPP/RNBQKBNR w KQkq - 0 1", RMove::new(12, 28, 0)), ("rnbqkbnr/pppppppp/8/3P4/8/8/PPP1PPPP/RNBQKBNR b KQkq - 0 1", RMove::new(52, 36, 0))].iter() {
             let st = Start { pos: RPos::from_fen(fen).unwrap(), prelude: vec![*m], tag: "directed_ep" };
-            let cfg = WalkCfg { max_plies: 1, null_per_mille: 0, stop_on_divergence: true, follow_library: false };
+            let cfg = WalkCfg { max_plies: 1, null_per_mille: 0, stop_on_divergence: true, follow_library: false, echo_per_mille: 50 };
             let mut mon = C06 {};
             playout(&st, &cfg, rng, &mut mon, rep);
         }
@@ -253,7 +253,7 @@ pub fn run_c06(ctx: &Ctx, rep: &mut Report) {
                 rep.count("ev_fen_of_80_or_more_characters");
             }
             let st = Start::plain(p, "synth_long_fen");
-            let cfg = WalkCfg { max_plies: if ctx.variant == Variant::Miri { 1 } else { 6 }, null_per_mille: 0, stop_on_divergence: true, follow_library: false };
+            let cfg = WalkCfg { max_plies: if ctx.variant == Variant::Miri { 1 } else { 6 }, null_per_mille: 0, stop_on_divergence: true, follow_library: false, echo_per_mille: 50 };
             let mut mon = C06 {};
             playout(&st, &cfg, rng, &mut mon, rep);
         }
@@ -271,7 +271,7 @@ pub fn run_hash(ctx: &Ctx, rep: &mut Report, p8: bool, p9: bool) {
     let n = ctx.budget(1200, 20_000, 1, 100);
     ctx.cases(rep, "sparse", n, |_gid, rng, rep| {
         let start = if rng.chance(1, 2) { Start::plain(synth::synth(rng, Density::Sparse), "synth_sparse") } else { Start::plain(corpus[rng.below(corpus.len())].clone(), "corpus") };
-        let cfg = WalkCfg { max_plies: if is_miri { 3 } else { rng.range(40, 160) }, null_per_mille: 30, stop_on_divergence: true, follow_library: false };
+        let cfg = WalkCfg { max_plies: if is_miri { 3 } else { rng.range(40, 160) }, null_per_mille: 30, stop_on_divergence: true, follow_library: false, echo_per_mille: 50 };
         let nodes = playout(&start, &cfg, rng, &mut mon, rep);
         rep.add("ev_nodes", nodes as u64);
     });
